@@ -240,6 +240,66 @@ def gen_script(rng, kind, metric, prm, dname, nops, maxn=60):
     return lines
 
 
+def isqrt_checks(n):
+    import math
+    return 1 + int(math.floor(math.sqrt(float(n))))
+
+
+def distinct_points(rng, metric, n):
+    dim = METRICS[metric][0]
+    xs = list(range(0, 12 * n, 12))
+    pts = [(x + rng.below(10),) if dim == 1 else (x + rng.below(10), rng.below(60)) for x in xs]
+    # shuffle
+    for i in range(len(pts) - 1, 0, -1):
+        j = rng.below(i + 1)
+        pts[i], pts[j] = pts[j], pts[i]
+    return pts
+
+
+def shrink_lines(rng, pts, q, keep, order, qp):
+    """q nearest() calls on the full structure, then removes down to `keep` elements with no query in between, then
+    the FIRST nearest() after the shrink (and a second one), size, list, k-nearest, radius."""
+    lines = ["nst " + ps(qp)] * q
+    if order == "back":            # remove in reverse insertion order: the freed tail slots keep the removed values
+        victims = list(reversed(pts[keep:]))
+        rest = pts[:keep]
+    elif order == "front":
+        victims = pts[:len(pts) - keep]
+        rest = pts[len(pts) - keep:]
+    else:
+        idx = list(range(len(pts)))
+        for i in range(len(idx) - 1, 0, -1):
+            j = rng.below(i + 1)
+            idx[i], idx[j] = idx[j], idx[i]
+        victims = [pts[i] for i in idx[keep:]]
+        rest = [pts[i] for i in sorted(idx[:keep])]
+    lines += ["rm " + ps(v) for v in victims]
+    lines += ["nst " + ps(qp), "nst " + ps(qp), "size", "list", "nk %s %d" % (ps(qp), keep + 1), "nr %s %d" % (ps(qp), HUGE)]
+    return lines, rest
+
+
+def gen_shrink(rng, kind, metric, prm):
+    """generator class *shrink-after-queries* (stale rotating state across a shrink): grow to n distinct elements,
+    q nearest() calls (q up to checks_ = 1 + floor(sqrt(n)) for SqrtApprox, so offset_ = q mod checks_; the GNAT's
+    offset_ advances once per visited internal node), bulk shrink by remove() to n' <= offset_ elements with no
+    nearest()/clear() in between, then the first nearest() after the shrink.  Optionally grown and shrunk again."""
+    lines = [header(kind, metric, prm)]
+    held = []
+    for _round in range(rng.range(1, 2)):
+        n = rng.choice([100, 100, 64, 50, 30, 17, 10]) if not kind.startswith("gnat") else rng.choice([12, 20, 30])
+        pts = [p for p in distinct_points(rng, metric, n + len(held)) if p not in held][:n]
+        lines += (["addv %d %s" % (len(pts), " ".join(ps(p) for p in pts))] if rng.chance(1, 3) else ["add " + ps(p) for p in pts])
+        allp = held + pts
+        checks = isqrt_checks(len(allp))
+        q = rng.range(1, checks)
+        off = q % checks
+        keep = rng.range(1, max(1, min(off, 4)))
+        qp = rng.choice(allp)
+        ls, held = shrink_lines(rng, allp, q, keep, rng.choice(["back", "back", "random", "front"]), qp)
+        lines += ls
+    return lines
+
+
 def gen_refill(rng, kind, metric, dname):
     """generator class *remove-then-clear-then-refill*: fill, remove a few elements with the removal cache
     not full, clear(), add the same values again in the same order (same allocation pattern, so freed leaf
@@ -380,7 +440,7 @@ def kc_oracle(metric, line, o):
 
 
 def judge_kc(ck, hbin, script, lock):
-    if len(ck.violations) >= 3:
+    if enough_alarms(ck):
         return True
     metric = parse_header(script[0])["metric"]
     out, rc, err = run_impl(ck, hbin, script)
@@ -831,6 +891,25 @@ def disagreement_probes(script, out, step, metric):
     if not cleared or held:
         probes.append(("clear-and-refill-held", pre + ["add " + ps(x) for x in held] + tail(held)))
     probes.append(("clear-refill-twice", pre + fill + ["clear"] + fill + tail(filled)))
+    # stale rotating state (offset_ / checks_) across a shrink: (grow if small,) j nearest() calls, remove down to
+    # n' elements with no query in between, then the first nearest() after the shrink
+    if metric != "table6":
+        base = list(dict.fromkeys(held))
+        grow = []
+        if len(base) < 40:
+            m = max([abs(c) for p in base for c in p] + [0]) + 1000
+            grow = [tuple([m + 13 * i] + [0] * (dim - 1)) for i in range(60)]
+        allp = held + grow
+        growl = ["addv %d %s" % (len(grow), " ".join(ps(p) for p in grow))] if grow else []
+        checks = isqrt_checks(len(allp))
+        for j in sorted(set([1, 2, 3, checks // 2, checks - 1])):
+            for keep in (1, 2, 3):
+                if j < 1 or keep >= len(allp):
+                    continue
+                victims = list(reversed(allp[keep:]))
+                probes.append(("shrink-after-%d-queries-to-%d" % (j, keep),
+                               prefix + growl + ["nst " + ps(allp[-1])] * j + ["rm " + ps(v) for v in victims] +
+                               ["nst " + ps(allp[-1]), "nst " + ps(allp[0]), "size", "list"]))
     return probes
 
 
@@ -981,8 +1060,15 @@ def classify(script, out, res):
     return rec
 
 
+def enough_alarms(ck):
+    """stop after 3 alarms WITH a concrete failing input (or 10 of any kind): model/implementation disagreements without
+    an input must not use up the budget before the aimed generator classes had their turn."""
+    with_input = sum(1 for _r, fi in ck.violations if fi)
+    return with_input >= 3 or len(ck.violations) >= 10
+
+
 def judge(ck, hbin, script, tag, lock):
-    if len(ck.violations) >= 3:        # enough alarms to act on; do not bury them
+    if enough_alarms(ck):              # enough alarms to act on; do not bury them
         with lock:
             ck.count("scripts:skipped-after-3-alarms")
         return True
@@ -1027,6 +1113,8 @@ def judge(ck, hbin, script, tag, lock):
         ck.traces_validated += 1
         ck.case(tuple(script), res["queries"] > 0 and res["maxn"] >= 4 and (res["internal"] or not kv["kind"].startswith("gnat")))
         ck.count("scripts:" + tag)
+        if tag == "shrink-after-queries":
+            ck.count("shrink-after-queries:ran:" + kv["kind"])
         ck.count("kind:" + kv["kind"])
         ck.count("metric:" + kv["metric"])
         ck.count("ops", len(script) - 1)
@@ -1238,6 +1326,14 @@ def run(ck):
     nper = 40 if ck.tier == "quick" else 400
     dnames = ["uniform", "dups", "lattice", "clusters"]
     metrics = list(METRICS)
+    # generator class shrink-after-queries (stale rotating state across a shrink), all four structures; early in the queue
+    shr_metrics = ["abs1", "l1", "linf", "abs3"]
+    for kind, cnt in (("sqrt", 24), ("linear", 8), ("gnat", 8), ("gnatnts", 8)):
+        for j in range(cnt if ck.tier == "quick" else 10 * cnt):
+            r = ck.rng.fork("shrink-%s-%d" % (kind, j))
+            prm = (gen_params(r, safe=True) if j % 2 else gen_boundary_params(r)) if kind.startswith("gnat") else None
+            jobs.append((gen_shrink(r, kind, shr_metrics[j % 4], prm), "shrink-after-queries"))
+            ck.count("shrink-after-queries:generated:" + kind)
     # generator class remove-then-clear-then-refill (both GNAT variants)
     nref = 40 if ck.tier == "quick" else 400
     for kind in ("gnat", "gnatnts"):
